@@ -180,6 +180,11 @@ def oracles(ctx: Ctx):
                 ctx.violation("failing-input", "oracle:client.roundtrip.big",
                               {"unit": "client.roundtrip.big", "input": enc([size, trailing]), "why": why}, key="roundtrip.big")
                 break
+    # histories: several protect calls at different instants on ONE cache, then every blob of the history is unprotected with that
+    # cache and with a fresh one (what an earlier or later protect leaves in the cache must not cost any blob its round trip)
+    from .. import prothist
+
+    prothist.run_oracle(ctx, prothist.pred_roundtrip, "client.roundtrip.history")
     ctx.oracle_runs += n + tn + bn
     ctx.extra["ticking_roundtrips"] = tn
     ctx.extra["big_roundtrips"] = bn
@@ -265,7 +270,14 @@ def ticking_cases(ctx: Ctx):
     return cases
 
 
-ORACLE_REPLAY = {"client.roundtrip.ticking": (lambda a: impl_roundtrip_ticking(a), _pred_ticking),
+def _hist_replay():
+    from .. import prothist
+
+    return prothist.impl_history, prothist.pred_roundtrip
+
+
+ORACLE_REPLAY = {"client.roundtrip.history": ((lambda a: _hist_replay()[0](a)), (lambda a, o: _hist_replay()[1](a, o))),
+                 "client.roundtrip.ticking": (lambda a: impl_roundtrip_ticking(a), _pred_ticking),
                  "client.roundtrip.big": (lambda a: impl_roundtrip_big(a), _pred_big)}
 
 
